@@ -147,11 +147,15 @@ def kindMatch (arg : Str) : Option Str :=
       if e.isEmpty then none else some e
     | _ => none
 
-/-- `LEN_RE.match(arg)` = `(?:len\s*=\s*(\w+|\*|:|\d+)|(\d+))`, IGNORECASE: `group(1) or group(2)` -/
-def lenMatch (arg : Str) : Option Str :=
-  let alt2 := let ds := arg.takeWhile isDigit; if ds.isEmpty then none else some ds
+/-- second alternative of `LEN_RE`: `(\d+)` -/
+def lenAlt2 (arg : Str) : Option Str :=
+  let ds := arg.takeWhile isDigit
+  if ds.isEmpty then none else some ds
+
+/-- first alternative of `LEN_RE`: `len\s*=\s*(\w+|\*|:|\d+)` -/
+def lenAlt1 (arg : Str) : Option Str :=
   match kwCI (chars! "len") arg with
-  | none => alt2
+  | none => none
   | some r =>
     match skipWs r with
     | '=' :: r' =>
@@ -162,8 +166,14 @@ def lenMatch (arg : Str) : Option Str :=
         match v with
         | '*' :: _ => some ['*']
         | ':' :: _ => some [':']
-        | _ => alt2
-    | _ => alt2
+        | _ => none
+    | _ => none
+
+/-- `LEN_RE.match(arg)` = `(?:len\s*=\s*(\w+|\*|:|\d+)|(\d+))`, IGNORECASE: `group(1) or group(2)` -/
+def lenMatch (arg : Str) : Option Str :=
+  match lenAlt1 arg with
+  | some x => some x
+  | none => lenAlt2 arg
 
 /-- `PROTO_RE.match(args)` = `(\*|\w+)\s*(?:\((.*)\))?` : groups 1 and 2 ("" when absent) -/
 def protoMatch (args : Str) : Option (Str × Str) :=
